@@ -26,6 +26,11 @@ def run(ctx):
     cg = mirlib.CallGraph(prog)
     unsafe_codec.zero_copy_sites(rep, 'R13.w', prog, cg)
     unsafe_codec.reader_accounting(rep, 'R13.r', prog, cg)
+    # the offset of a retained chunk is the count the skipper reports: it equals the bytes the skipper consumed
+    import skippers
+    skippers.default_skipper_binary_arm(rep, 'R13.k', prog)
+    skippers.default_skipper_widths(rep, 'R13.k', prog, cg)
+    unsafe_codec.skipper_tables(rep, 'R13.k', prog, cg)
     rep.programs = 7
     rep.disagreements_checked = rep.obligations
     rep.floor('G13.a', 35)
